@@ -5,12 +5,15 @@
 (*                                                                                         *)
 (*   {"ev":"reset","weak":false,"st":{store}}   start of an epoch with its initial store   *)
 (*   {"ev":"inv","id":7,"op":{"t":"incr","k":"s1","v":0}}                                  *)
-(*   {"ev":"ok","id":7,"res":5} | {"ev":"fail","id":7}                                     *)
+(*   {"ev":"ok","id":7,"res":5} | {"ev":"fail","id":7,"why":"..."}                         *)
+(*   {"ev":"refused","id":7,"why":"..."}        refused before anything was proposed       *)
 (*   {"ev":"read","n":2,"st":{store}}           all keys read from replica n               *)
 (*   {"ev":"settle"}                            end of the epoch's reads                   *)
+(*   {"ev":"sent","n":2,"early":true,"newleader":false,"tvchanged":true,"count":1}         *)
+(*                                              white-box: see TSent                       *)
 (*                                                                                         *)
-(* Silent steps are taken just in time (only when the next line is an answer, a read or a  *)
-(* crash), which loses no linearization: a silent step commutes to the right over lines    *)
+(* Silent steps are taken just in time (only when the next line is an answer or a read that *)
+(* needs it), which loses no linearization: a silent step commutes to the right over lines    *)
 (* that do not look at the store.  The high-water mark of the line counter is kept with    *)
 (* TLCSet (workers = 1); the run stops as soon as one behaviour has consumed every line.   *)
 EXTENDS ZLin, Json, IOUtils
@@ -20,7 +23,7 @@ VARIABLES l,       \* next trace line
 
 Trace == ndJsonDeserialize(IOEnv.ZR_TRACE)
 E == Trace[l]
-tvars == <<store, open, zomb, base, tail, nlin, frontier, ackedPos, weak, l, reads>>
+tvars == <<store, open, zomb, base, tail, weak, l, reads>>
 
 ASSUME TLCSet(1, 0)
 
@@ -33,24 +36,38 @@ TInit == /\ l = 2 /\ reads = <<>>
 
 TReset == /\ IsEvent("reset") /\ Consume /\ reads' = <<>>
           /\ store' = E.st /\ open' = <<>> /\ zomb' = <<>> /\ base' = E.st /\ tail' = <<>>
-          /\ nlin' = 0 /\ frontier' = 0 /\ ackedPos' = 0 /\ weak' = E.weak
+          /\ weak' = E.weak
 
-TInv  == IsEvent("inv") /\ Invoke(E.id, E.op) /\ Consume /\ UNCHANGED reads
-TOk   == IsEvent("ok") /\ ReturnOk(E.id, E.res) /\ Consume /\ UNCHANGED reads
+TInv  == IsEvent("inv") /\ Invoke(E.id, E.op, l) /\ Consume /\ UNCHANGED reads
+TOk   == IsEvent("ok") /\ ReturnOk(E.id, E.res, l) /\ Consume /\ UNCHANGED reads
 TFail == IsEvent("fail") /\ ReturnFail(E.id) /\ Consume /\ UNCHANGED reads
+TRefused == IsEvent("refused") /\ Refuse(E.id) /\ Consume /\ UNCHANGED reads
 TRead == /\ IsEvent("read") /\ Observe(E.st) /\ Consume
          /\ reads' = With(reads, E.n, E.st)
 TSettle == IsEvent("settle") /\ Settle /\ Consume /\ reads' = <<>>
 
-(* just-in-time silent steps *)
-NeedLin == /\ l <= Len(Trace)
-           /\ \/ E.ev = "ok" /\ E.id \in DOMAIN open /\ ~open[E.id].done
-              \/ E.ev = "read" /\ store # E.st
-              \/ E.ev = "died"
-TLin  == NeedLin /\ (\E id \in DOMAIN open : Linearize(id)) /\ UNCHANGED <<l, reads>>
-TLinZ == NeedLin /\ (\E id \in DOMAIN zomb : LinearizeZ(id)) /\ UNCHANGED <<l, reads>>
+(* just-in-time silent steps, per location: operations on different locations commute, so   *)
+(* before an answer only operations on the answered operation's location are placed, before  *)
+(* a read only operations on a location whose value still differs                            *)
+Locs == {"s1", "s2", "h1f1", "h1f2", "l1"}
+NeedLoc(k) == /\ l <= Len(Trace)
+              /\ \/ E.ev = "ok" /\ E.id \in DOMAIN open /\ ~open[E.id].done /\ open[E.id].op.k = k
+                 \/ E.ev = "read" /\ store[k] # E.st[k]
+TLin  == /\ \E id \in DOMAIN open : NeedLoc(open[id].op.k) /\ Linearize(id)
+         /\ UNCHANGED <<l, reads>>
+TLinZ == /\ \E id \in DOMAIN zomb : NeedLoc(zomb[id].k) /\ LinearizeZ(id)
+         /\ UNCHANGED <<l, reads>>
 
-TNext == TReset \/ TInv \/ TOk \/ TFail \/ TRead \/ TSettle \/ TLin \/ TLinZ
+(* White-box report of node/raft.go processReady (hooks verifReady / ready.sent.early): the  *)
+(* messages of a Ready left before its hard state and entries were persisted.  The pipeline  *)
+(* order of ZNode (Publish, WalSave, ..., RaftDone + Send, Advance) allows that only for the *)
+(* Ready in which the replica became leader; a Ready that changes term or vote (a vote       *)
+(* grant) must be in the WAL before any of its messages is sent.  (A Ready without term/vote *)
+(* change has nothing a peer could rely on; sending it early is tolerated.)                  *)
+TSent == /\ IsEvent("sent") /\ (E.early => (E.newleader \/ ~E.tvchanged))
+         /\ Consume /\ UNCHANGED <<linVars, reads>>
+
+TNext == TSent \/ TReset \/ TInv \/ TOk \/ TFail \/ TRefused \/ TRead \/ TSettle \/ TLin \/ TLinZ
 TSpec == TInit /\ [][TNext]_tvars
 
 (* all replicas returned the same data after the barrier (independent of the silent steps) *)
